@@ -37,6 +37,105 @@ fn esc(s: &str, out: &mut String) {
     out.push('"');
 }
 
+/// JSON-level spelling freedom: any character of any string (member names included) may be written as a
+/// \uXXXX escape (astral ones as a surrogate pair, hex digits in either case, '/' as `\/`), and blanks may
+/// surround every token. Driven by one salt (0 = canonical text) through a small LCG, so a case stays a pure
+/// function of its choice bytes.
+struct Spell(u32);
+impl Spell {
+    fn next(&mut self, n: u32) -> u32 {
+        if self.0 == 0 {
+            return 0;
+        }
+        self.0 = self.0.wrapping_mul(1_664_525).wrapping_add(1_013_904_223) | 1;
+        (self.0 >> 8) % n
+    }
+    fn ws(&mut self, out: &mut String) {
+        match self.next(12) {
+            1 => out.push(' '),
+            2 => out.push('\n'),
+            3 => out.push_str(" \t"),
+            4 => out.push_str("\r\n"),
+            _ => {}
+        }
+    }
+    fn esc(&mut self, s: &str, out: &mut String) {
+        out.push('"');
+        for c in s.chars() {
+            let hexcase = |v: u32, upper: bool| if upper { format!("\\u{v:04X}") } else { format!("\\u{v:04x}") };
+            if self.next(10) == 3 {
+                let upper = self.next(2) == 1;
+                let cp = c as u32;
+                if cp >= 0x10000 {
+                    let v = cp - 0x10000;
+                    out.push_str(&hexcase(0xd800 + (v >> 10), upper));
+                    out.push_str(&hexcase(0xdc00 + (v & 0x3ff), upper));
+                } else {
+                    out.push_str(&hexcase(cp, upper));
+                }
+                continue;
+            }
+            match c {
+                '"' => out.push_str("\\\""),
+                '\\' => out.push_str("\\\\"),
+                '\n' => out.push_str("\\n"),
+                '\r' => out.push_str("\\r"),
+                '\t' => out.push_str("\\t"),
+                '/' if self.next(3) == 1 => out.push_str("\\/"),
+                '\u{8}' if self.next(2) == 1 => out.push_str("\\b"),
+                '\u{c}' if self.next(2) == 1 => out.push_str("\\f"),
+                c if (c as u32) < 0x20 => out.push_str(&format!("\\u{:04x}", c as u32)),
+                c => out.push(c),
+            }
+        }
+        out.push('"');
+    }
+    fn text(&mut self, j: &JV, out: &mut String) {
+        self.ws(out);
+        match j {
+            JV::Null => out.push_str("null"),
+            JV::Bool(b) => out.push_str(if *b { "true" } else { "false" }),
+            JV::Num(t) => out.push_str(t),
+            JV::Str(s) => self.esc(s, out),
+            JV::Arr(a) => {
+                out.push('[');
+                for (i, e) in a.iter().enumerate() {
+                    if i > 0 {
+                        out.push(',');
+                    }
+                    self.text(e, out);
+                }
+                self.ws(out);
+                out.push(']');
+            }
+            JV::Obj(o) => {
+                out.push('{');
+                for (i, (k, v)) in o.iter().enumerate() {
+                    if i > 0 {
+                        out.push(',');
+                    }
+                    self.ws(out);
+                    self.esc(k, out);
+                    self.ws(out);
+                    out.push(':');
+                    self.text(v, out);
+                }
+                self.ws(out);
+                out.push('}');
+            }
+        }
+        self.ws(out);
+    }
+}
+
+pub fn to_text_spelled(j: &JV, salt: u32, out: &mut String) {
+    if salt == 0 {
+        to_text(j, out)
+    } else {
+        Spell(salt | 1).text(j, out)
+    }
+}
+
 pub fn to_text(j: &JV, out: &mut String) {
     match j {
         JV::Null => out.push_str("null"),
@@ -467,7 +566,9 @@ pub fn write_jv(v: &RVal, ch: &mut Ch) -> JV {
 pub fn write(v: &RVal, ch: &mut Ch) -> String {
     let j = write_jv(v, ch);
     let mut s = String::new();
-    to_text(&j, &mut s);
+    // one more choice: the JSON-level spelling (about a third of the non-canonical documents)
+    let salt = if ch.pick(3) == 2 { 1 + ch.pick(250) as u32 * 7919 } else { 0 };
+    to_text_spelled(&j, salt, &mut s);
     s
 }
 
